@@ -4,7 +4,7 @@ from vf import common, configs
 
 RULE = ("values: SHA-256/512, 3 HMACs (+crypto_auth), BLAKE2b (unkeyed-32, keyed-64), SipHash-2-4 64/128, Poly1305 at EVERY message length "
         "0..1100 (thorough 0..4200) x 6 patterns, plus isolated large lengths {4095..4097, 8191..8193, 16383..16385, 65535..65537, 131071..131073, "
-        "2^20-1..2^20+1 (thorough 2^22+-1; thorough also 2^29+1 and 2^32+1 bytes - bit and byte counters passing 2^32 - on a virtual buffer)} one-shot and two-chunk; HMAC every key length 0..200 x 16 message lengths; BLAKE2b every outlen 1..64 x keylen "
+        "2^20-1..2^20+1 (thorough 2^22+-1; thorough also 2^29+1 and 2^32+1 bytes - bit and byte counters passing 2^32 - on a virtual buffer; 2^32+13 bytes through SipHash-2-4 64/128 in both tiers and through unkeyed BLAKE2b, crypto_auth, HMAC-SHA-512 in the thorough tier, so that every one-shot function sees > 4 GiB)} one-shot and two-chunk; HMAC every key length 0..200 x 16 message lengths; BLAKE2b every outlen 1..64 x keylen "
         "{0,1,16,32,63,64} x salt/personal {none,salt,personal,both} x lengths 0..140 (+stride to 300; thorough every 0..520); kdf_derive every "
         "subkey_len 16..64 x 7 ids x 6 patterns; HKDF extract salt 0..130 x ikm 0..260; HKDF expand every out_len 0..8160/16320 "
         "(quick: every length to 700/1400 then the 5 lengths around every block boundary) x 3 context lengths; out-of-range lengths refused; "
